@@ -5,7 +5,7 @@ from lib.core import czl
 from harness import common, pdugen
 
 THEOREMS = ['C03_command_length', 'C03_header_roundtrip', 'C03_plain_roundtrip', 'C03_smresp_roundtrip',
-            'C03_bind_roundtrip', 'C03_bindresp_roundtrip', 'C03_nonvacuous']
+            'C03_bind_roundtrip', 'C03_bindresp_roundtrip', 'C03_sm_roundtrip', 'C03_optional_parameters', 'C03_nonvacuous']
 IMPORTS = ['AV.Model.Base', 'AV.Model.Codec', 'AV.Model.Split', 'AV.Model.TimeFmt', 'AV.Model.Pdu']
 
 
